@@ -12,7 +12,7 @@ From GV Require Import Base.Str.
 (* what the validation and the template look at on one top-level field of the request message *)
 Record rfield := mkRField {
   rf_name : string;
-  rf_string : bool;      (* field.type == PrimitiveType.build(str): the scalar type only, not the label *)
+  rf_string : bool;      (* field.type == PrimitiveType.build(str): the scalar type (the label is rf_repeated) *)
   rf_required : bool;    (* google.api.field_behavior contains REQUIRED *)
   rf_uuid4 : bool;       (* google.api.field_info.format == UUID4 *)
   rf_optional : bool;    (* proto3_optional *)
@@ -34,12 +34,13 @@ Definition find_field (name : string) (fs : list rfield) : option rfield :=
 Definition find_method (sel : string) (ms : list mdesc) : option mdesc :=
   find (fun m => String.eqb (m_selector m) sel) ms.
 
-(* the inner loop over auto_populated_fields: three independent ifs after the membership test *)
+(* the inner loop over auto_populated_fields: three independent ifs after the membership test;
+   the first one is  field.type != str or field.repeated *)
 Definition field_errors (fs : list rfield) (name : string) : list (string * ferr) :=
   match find_field name fs with
   | None => [(name, FNotFound)]
   | Some f =>
-    ((if rf_string f then [] else [(name, FNotString)]) ++
+    ((if rf_string f && negb (rf_repeated f) then [] else [(name, FNotString)]) ++
      (if rf_required f then [(name, FRequired)] else []) ++
      (if rf_uuid4 f then [] else [(name, FNotUuid4)]))%list
   end.
@@ -96,8 +97,6 @@ Definition enforce (methods : list mdesc) (settings : list setting) : outcome :=
 (* ---- the property's own sentence about validation ----
    "generation fails unless the method exists, is unary and the field is a top-level, non-required string
     annotated with format UUID4, and duplicate selectors are rejected" *)
-Definition code_valid_field (fs : list rfield) (name : string) : Prop :=
-  exists f, In f fs /\ rf_name f = name /\ rf_string f = true /\ rf_required f = false /\ rf_uuid4 f = true.
 Definition spec_valid_field (fs : list rfield) (name : string) : Prop :=
   exists f, In f fs /\ rf_name f = name /\ rf_string f = true /\ rf_repeated f = false /\
             rf_required f = false /\ rf_uuid4 f = true.
@@ -111,7 +110,6 @@ Definition valid_setting (vf : list rfield -> string -> Prop) (methods : list md
 Definition valid_settings (vf : list rfield -> string -> Prop) (methods : list mdesc) (settings : list setting) : Prop :=
   NoDup (map s_selector settings) /\ Forall (valid_setting vf methods) settings.
 
-Definition code_valid := valid_settings code_valid_field.
 Definition spec_valid := valid_settings spec_valid_field.
 
 (* protoc guarantees *)
@@ -120,17 +118,12 @@ Definition methods_wf (methods : list mdesc) : Prop :=
   NoDup (map m_selector methods) /\
   forall m fs, In m methods -> m_input m = Some fs -> fields_uniq fs.
 
-(* no string field that carries the UUID4 annotation is repeated: there the code and the sentence coincide *)
-Definition no_repeated_uuid_strings (methods : list mdesc) : Prop :=
-  forall m fs f, In m methods -> m_input m = Some fs -> In f fs ->
-    rf_string f = true -> rf_uuid4 f = true -> rf_repeated f = false.
-
 (* one violation in one entry *)
 Definition violates (methods : list mdesc) (s : setting) : Prop :=
   (forall m, In m methods -> m_selector m <> s_selector s) \/
   exists m, In m methods /\ m_selector m = s_selector s /\ s_fields s <> [] /\
     (m_cstream m = true \/ m_sstream m = true \/
-     exists fs name, m_input m = Some fs /\ In name (s_fields s) /\ ~ code_valid_field fs name).
+     exists fs name, m_input m = Some fs /\ In name (s_fields s) /\ ~ spec_valid_field fs name).
 
 (* API.all_method_settings.get(selector): dict comprehension over the settings list, last one wins *)
 Fixpoint setting_for (sel : string) (settings : list setting) : option setting :=
